@@ -5,6 +5,15 @@ V = os.path.dirname(os.path.dirname(os.path.abspath(__file__)))
 props = [json.loads(l) for l in open(os.path.join(V, "properties.jsonl"))]
 
 CLAIMED = {
+ "C01": dict(
+  text="Machine-checked proof (Coq 8.16) of the accuracy guarantee for EVERY history of region assignments: for the PaVeBa family and for Auer, if every round satisfies what validity plus sound/complete region tests provide (domination test sound, transitive and irreflexive on displayed regions; cover test complete), then at termination every excluded design is weakly dominated by a member of P and no member of P is exceeded by more than eps along every unit direction (invariant argument incl. the maximal-dominator lemma for same-round chains and the stale-region invariant for non-useful members). The rounds are the ones regenerated from the source; the hypotheses are discharged for hyper-rectangles from the verified vertex test and Fourier–Motzkin cover decider under cone_slack_ok. Tied to /repo additionally by valid-by-construction (incl. facet-adversarial) stub histories run to termination on the real algorithm objects and judged exactly.",
+  note="Trusted: as C02, plus: for ellipsoidal variants the completeness of the cvxpy cover test is an assumption; alpha_n is taken from the run (C17). Known finding C01-rect-slack-obtuse (cone_slack_ok fails for obtuse cones with rectangular PaVeBaGP/PartialGP). All theorems closed under the global context.",
+  technique="Coq proof (invariants over arbitrary histories) + terminated valid-history correspondence", design="4/C01"),
+ "C05": dict(
+  text="Machine-checked proof (Coq 8.16), for every history of region assignments satisfying the per-round hypotheses that validity gives through the verified rectangle deciders (proved: rect_vg_round_ok), that VOGP / eps-PAL never lose a design no other design matches up to the eps-slack and never return two members one of which dominates the other beyond the slack; the rounds are the regenerated ones. Tied to /repo additionally by valid (incl. cover-adversarial, anisotropic) stub histories on the real algorithm objects, judged exactly on the true values.",
+  note="Trusted: as C02; u* taken from the run (C17). All theorems closed under the global context.",
+  technique="Coq proof (invariants over arbitrary histories) + terminated valid-history correspondence", design="4/C05"),
+
  "C02": dict(
   text="Machine-checked proof (Coq 8.16) that, for the set transitions REGENERATED from vopy/algorithms/*.py on every run (discarding / pareto_updating / epsiloncovering / useful_updating / compute_pessimistic_set; refinement to the reference transitions of Spec.v by reflexivity), a design leaves S without entering P exactly when the source's own is_dominated call (predicate, argument order and slack read from the source) certifies it against a witness from S∪U (PaVeBa family) or from the pessimistic set (VOGP, eps-PAL, VOGP_AD discarding), for every state and every region assignment; Auer on a hand-written reference transition. Tied to /repo by the translator and by a runtime correspondence: real algorithm objects driven by stub posteriors, reference round recomputed by the extracted verified deciders on the displayed regions.",
   note="Trusted: Coq kernel; translator (py2coq.py, algos.py); hand-written Auer transition; extraction (ExtrOcamlBasic) + driver; cvxpy/numpy inside the implementation modelled (tolerance band). All theorems closed under the global context.",
